@@ -257,13 +257,15 @@ def run_sample(case):
 
 
 # ------------------------------------------------------------------------------------------ 5
-BIN = ["add", "sub", "mul", "div", "pow", "radd", "rsub", "rmul", "rdiv", "np.add", "np.multiply", "np.subtract"]
+BIN = ["add", "sub", "mul", "div", "pow", "radd", "rsub", "rmul", "rdiv", "np.add", "np.multiply", "np.subtract",
+       "np.rsubtract", "np.rdivide", "rsub", "rdiv"]
 UN = ["neg", "np.sqrt", "np.exp", "np.log", "np.sin", "np.square"]
 
 
 def expr(depth):
     leaf_p = st.integers(0, 2).map(lambda i: {"t": "p", "i": i})
-    leaf_n = gen.rounded(0.5, 3.0, 3).map(lambda v: {"t": "n", "v": v})
+    # numbers are python floats or numpy scalars (what indexing an array yields)
+    leaf_n = st.tuples(gen.rounded(0.5, 3.0, 3), st.booleans()).map(lambda t: {"t": "n", "v": t[0], "np": t[1]})
     if depth == 0:
         return leaf_p
     sub = expr(depth - 1)
@@ -293,7 +295,7 @@ def build_expr(e, pool):
     if e["t"] == "p":
         return pool[e["i"]]
     if e["t"] == "n":
-        return e["v"]
+        return np.float64(e["v"]) if e.get("np") else e["v"]
     if e["t"] == "u":
         a = build_expr(e["a"], pool)
         op = e["op"]
@@ -313,6 +315,8 @@ def build_expr(e, pool):
     if op == "rdiv": return b / a
     if op == "np.add": return np.add(a, b)
     if op == "np.multiply": return np.multiply(a, b)
+    if op == "np.rsubtract": return np.subtract(b, a)
+    if op == "np.rdivide": return np.true_divide(b, a)
     return np.subtract(a, b)
 
 
@@ -337,10 +341,10 @@ def eval_expr(e, leafval):
     b = eval_expr(e["b"], leafval)
     if op in ("add", "radd", "np.add"): return a + b
     if op == "sub": return a - b
-    if op == "rsub": return b - a
+    if op in ("rsub", "np.rsubtract"): return b - a
     if op in ("mul", "rmul", "np.multiply"): return a * b
     if op == "div": return a / b
-    if op == "rdiv": return b / a
+    if op in ("rdiv", "np.rdivide"): return b / a
     if op == "pow": return a ** b
     return a - b
 
